@@ -22,8 +22,25 @@ import (
 // idleGrace is the additional time an event offered to an idle loop is given before it is declared stuck.
 const idleGrace = 2 * time.Second
 
-func runIdleFamily(r *rng.R, burst bool) (res result) {
+// kind selects the member of the family:
+//
+//	0: start-up batch of 1024..1100 events, no burst
+//	1: burst of 1024..1100 events coalesced while the start-up batch is in flight
+//	2..7: burst of 60..70 (even kinds) or 120..135 (odd kinds) events coalesced WHILE a batch is in flight, after
+//	      `earlier` = 1,2,2,1,0,3 single-event batches were handled — so that either of the two buffers is the one in
+//	      flight and sizes around small powers of two (initial capacities, growth steps) are crossed.
+func runIdleFamily(r *rng.R, kind int) (res result) {
+	kind %= 8
+	burst := kind != 0
 	n := 1024 + r.Intn(77) // 1024..1100
+	earlier := 0
+	if kind >= 2 {
+		n = 60 + r.Intn(11)
+		if kind%2 == 1 {
+			n = 120 + r.Intn(16)
+		}
+		earlier = []int{1, 2, 2, 1, 0, 3}[kind-2]
+	}
 	nFirst := n
 	if burst {
 		nFirst = 1 + r.Intn(3)
@@ -70,17 +87,6 @@ func runIdleFamily(r *rng.R, burst bool) (res result) {
 		return res
 	}
 	pending := 0
-	if burst {
-		for i := 0; i < n; i++ {
-			if !send(next, wait) {
-				break // a loop that applies back-pressure while busy: go on with what was taken
-			}
-			sent = append(sent, next)
-			ops = append(ops, "r"+strconv.Itoa(next))
-			next++
-			pending++
-		}
-	}
 	// release handlers until the loop is idle; false = judge line already set / inconclusive
 	toIdle := func() bool {
 		for {
@@ -109,6 +115,36 @@ func runIdleFamily(r *rng.R, burst bool) (res result) {
 			}
 			ops = append(ops, "a")
 			return true
+		}
+	}
+	if burst {
+		// `earlier` single-event batches, the last of which stays in flight during the burst
+		for j := 0; j < earlier; j++ {
+			if !toIdle() {
+				return res
+			}
+			e := next
+			next++
+			if !send(e, wait) && !send(e, idleGrace) {
+				sent = append(sent, e)
+				res.judge = judge(0, 1)
+				return res
+			}
+			sent = append(sent, e)
+			ops = append(ops, "r"+strconv.Itoa(e))
+			if !waitEntered() {
+				res.judge = judge(1, 0)
+				return res
+			}
+		}
+		for i := 0; i < n; i++ {
+			if !send(next, wait) {
+				break // a loop that applies back-pressure while busy: go on with what was taken
+			}
+			sent = append(sent, next)
+			ops = append(ops, "r"+strconv.Itoa(next))
+			next++
+			pending++
 		}
 	}
 	if !toIdle() {
